@@ -8,7 +8,7 @@ import ast
 import z3
 
 from . import sym, spec, frontend
-from .sym import (SV, SNum, SBool, SKey, SVal, SFn, SDict, SSet, SList, STuple, SObj, NONE, TInt, TNum, TNumK,
+from .sym import (SV, SNum, SBool, SKey, SVal, SFn, SDict, SSet, SList, STuple, SObj, NONE, TInt, TNum, TNumK, SNDArray,
                   TBool, TKey, TVal, TFn, TNone, TDict, TSet, TList, TTuple, TObj, pack, snapshot, fresh_name)
 from .spec import FUNCS, CLASSES, Ctx, NS, ObjView, view, TOpt
 
@@ -863,6 +863,11 @@ class Run:
             mir = getattr(c, 'mirror', None)
             if mir is not None:
                 mir[0].store(idx, mir[1])
+        elif isinstance(c, SNDArray):
+            idx = self.index(c, k)
+            if not isinstance(v, SNum):
+                raise Unsupported("non-numeric store into an ndarray")
+            c.store(idx, v.real(), False)
         else:
             raise Unsupported(f"item store on {c}")
 
@@ -942,6 +947,9 @@ class Run:
 
     def getattr(self, o, attr):
         if isinstance(o, Module):
+            from . import pylib
+            if o.path + '.' + attr in pylib.VALUE_ATTRS:
+                return pylib.module_value(self, o.path + '.' + attr)
             return Module(o.path + '.' + attr)
         if isinstance(o, SObj):
             f = o.getfield(attr)
@@ -1326,6 +1334,8 @@ class Run:
         fr = frames[0]
         elt = self.ev(e.elt)
         etyp = _val_type(elt)
+        if getattr(elt, 'isnan', False):
+            etyp = TNum         # a list of NaN markers: plain numbers plus the NaN mask set below
         self.qstack.pop()       # result array is defined outside the element's frame
         lt = TList(etyp)
         res = self.fresh(lt, 'lc')
@@ -1335,6 +1345,8 @@ class Run:
         self.comp_close(frames)
         self.env = saved
         res.comp_def = (fr.index, pack(elt, etyp))
+        if getattr(elt, 'isnan', False):
+            res.nan_mask = z3.K(z3.IntSort(), z3.BoolVal(True))
         return res
 
     def ex_GeneratorExp(self, e):
